@@ -30,12 +30,12 @@ type Step struct {
 }
 
 type Trace struct {
-	ID      string   `json:"id"`
-	Members int      `json:"members"`
-	R       int      `json:"r"`
-	Entry   string   `json:"entry"`
-	Steps   []Step   `json:"steps"`
-	Ps      []PsStep `json:"ps,omitempty"`
+	ID      string        `json:"id"`
+	Members int           `json:"members"`
+	R       int           `json:"r"`
+	Entry   string        `json:"entry"`
+	Steps   []Step        `json:"steps"`
+	Ps      []PsStep      `json:"ps,omitempty"`
 	P       uint64        `json:"p,omitempty"`
 	Mem     []MemStep     `json:"mem,omitempty"`
 	Table0  [][2][]string `json:"table0,omitempty"`
